@@ -7,3 +7,25 @@ class World:
 
 class Holder:
     """Generic attribute holder."""
+
+
+class RecTransport:
+    """Transport stand-in: records what is sent (ghost list 'sent'); contract of transport.send here:
+    no effect on the connection object, does not raise."""
+
+    def send(self, knxipframe, addr=None):
+        from pyvc.api import ghost
+
+        ghost("sent").append(knxipframe)
+
+
+class RecCallback:
+    """A user/owner callback that records its argument (ghost list `name`) and does not raise."""
+
+    def __init__(self, name):
+        self.name = name
+
+    def __call__(self, *args):
+        from pyvc.api import ghost
+
+        ghost(self.name).append(args[0] if len(args) == 1 else args)
